@@ -27,6 +27,14 @@ Theorem offered_use_name_resolves p d m e l :
 Proof. exact (offered_name_resolves p d m e l). Qed.
 Print Assumptions offered_use_name_resolves.
 
+(* and conversely: what the USE search resolves to an entity of module m is offered, under that name, from m.
+   Together: for rename-free USE dictionaries completion through USE and go-to-definition agree exactly. *)
+Theorem resolved_use_name_is_offered p d name mi e m :
+  Forall (fun x => i_ren (snd x) = []) d ->
+  search_uses p d name = Some (mi, Some e, ViaUse m) -> In (m, e, name) (use_candidates p d).
+Proof. exact (resolved_name_is_offered p d name mi e m). Qed.
+Print Assumptions resolved_use_name_is_offered.
+
 Example C12_nonvacuous :
   let m1 := SCP (s2l "m1") [EN (s2l "alpha") 0 1; EN (s2l "beta") (-1) 2; EN (s2l "gam") 0 3] 0 [] None in
   let pr := SCP (s2l "p") [EN (s2l "ax") 0 4] 0 [US (s2l "m1") [s2l "r_al"; s2l "gam"] [(s2l "r_al", s2l "alpha")]] None in
